@@ -10,6 +10,7 @@ import AnnetModel.Lemmas.Diff
 import AnnetModel.Lemmas.DiffText
 import AnnetModel.Lemmas.DiffWhole
 import AnnetModel.Lemmas.DiffTextStrict
+import AnnetModel.Lemmas.Collapse
 
 /-! OBLIGATIONS
 Annet.Diff.C03_proj_new
@@ -28,6 +29,10 @@ Annet.Diff.C03_pre_text_roundtrip
 Annet.Diff.C03_text_rows_ok_shipped_formatters
 Annet.Diff.C03_moved_iff_relative_order_false
 Annet.Diff.C03_proj_old_order_false
+Annet.Diff.C03_collapse_partition
+Annet.Diff.C03_collapse_group_same_text
+Annet.Diff.C03_collapse_runs_maximal
+Annet.Diff.C03_collapse_faithful
 -/
 
 namespace Annet.Diff
@@ -185,5 +190,43 @@ theorem C03_proj_old_order_false :
 /-- Non-vacuity: a default-logic group with an addition, a removal and a common row. -/
 example : ops (baseDiff (callDiffLogic 2) [.op .affected] true (lvl ["x a", "x b"]) (lvl ["x b", "x c"]))
     = [("affected", "x b"), ("removed", "x a"), ("added", "x c")] := by decide
+
+/-! ### several devices: `collapse_diffs` (annet/diff.py), the grouping behind `annet diff` and the deploy confirmation -/
+
+/-- Every device is shown in exactly one group: the device names of all groups, concatenated, are the device names
+given, up to order. -/
+theorem C03_collapse_partition {δ : Type} (es : List (Collapse.Entry δ)) :
+    ((Collapse.collapse es).flatMap (·.1)).Perm (es.map (·.dev)) :=
+  Collapse.collapse_devices_perm es
+
+/-- What is shown for a group is the diff of one of its members, and every member of the group has the same
+(transformed) text as that member. -/
+theorem C03_collapse_group_same_text {δ : Type} (es : List (Collapse.Entry δ)) :
+    ∀ p ∈ Collapse.collapse es, ∃ g ∈ Collapse.groups es, ∃ r ∈ g,
+      p.1 = g.map (·.dev) ∧ p.2 = r.diff ∧ ∀ x ∈ g, x.key = r.key :=
+  Collapse.collapse_group_spec es
+
+/-- Groups are maximal runs of the sorted list: neighbouring groups differ in text. -/
+theorem C03_collapse_runs_maximal {δ : Type} (l : List (Collapse.Entry δ)) :
+    ∀ i (h : i + 1 < (Collapse.groupRuns l).length),
+      ∀ x ∈ ((Collapse.groupRuns l)[i]'(by omega)).getLast?, ∀ y ∈ ((Collapse.groupRuns l)[i + 1]'h).head?, x.key ≠ y.key :=
+  Collapse.groupRuns_maximal l
+
+/-- FAITHFULNESS of the collapsed view: when the text compared is the rendered diff itself (no line masked by
+`_transform_text_diff_for_collapsing`; the harness checks on the real code that only `snmp-agent … cipher` lines are
+changed by it), every device of a group has exactly the diff that is shown for the group — same entries, same signs,
+same nesting.  Combines the grouping lemmas with `C03_diff_text_injective`. -/
+theorem C03_collapse_faithful (f : DiffText.Fmt) (hf : DiffText.FmtOK f) (es : List (Collapse.Entry (List DiffText.SItem)))
+    (hk : ∀ e ∈ es, e.key = DiffText.diffText f e.diff ∧ DiffText.RowsOK f e.diff) :
+    ∀ p ∈ Collapse.collapse es, ∃ g ∈ Collapse.groups es, p.1 = g.map (·.dev) ∧ ∀ x ∈ g, x ∈ es ∧ x.diff = p.2 :=
+  Collapse.collapse_faithful f hf es hk
+
+/-- Non-vacuity: three devices, two with the same text; the model groups them and shows the first one's diff. -/
+example :
+    let e (d v : String) (i : Nat) (k : List String) : Collapse.Entry Nat := ⟨d.toList, v.toList, i, k.map String.toList⟩
+    (Collapse.collapse [e "sw3" "huawei" 0 ["+ a", "+  b"], e "sw1" "huawei" 1 ["+ a", "+ b"], e "sw2" "huawei" 2 ["+ a", "+  b"]]).map
+        (fun p => (p.1.map String.ofList, p.2)) = [(["sw3", "sw2"], 0), (["sw1"], 1)] := by
+  decide
+
 
 end Annet.Diff
